@@ -2,6 +2,7 @@ package ast
 
 import (
 	"fmt"
+	"sort"
 
 	"github.com/ah-naf/borno/token"
 	"golang.org/x/text/unicode/norm"
@@ -140,12 +141,28 @@ func (a *ArrayAccess) String() string {
 // ObjectLiteral represents an object literal in the source code.
 type ObjectLiteral struct {
 	Properties map[string]Expr
+	Keys       []string // property names in source order
+}
+
+// OrderedKeys returns the property names in source order (sorted if the
+// literal was built without recording an order).
+func (o *ObjectLiteral) OrderedKeys() []string {
+	if len(o.Keys) == len(o.Properties) {
+		return o.Keys
+	}
+	keys := make([]string, 0, len(o.Properties))
+	for key := range o.Properties {
+		keys = append(keys, key)
+	}
+	sort.Strings(keys)
+	return keys
 }
 
 func (o *ObjectLiteral) String() string {
 	val := "{"
 	i := 0
-	for key, value := range o.Properties {
+	for _, key := range o.OrderedKeys() {
+		value := o.Properties[key]
 		if i > 0 {
 			val += ", "
 		}
